@@ -2,6 +2,7 @@ import Proofs.C05
 import Proofs.TieAccept
 import Proofs.TieBuild
 import Proofs.TieLoopTail
+import Proofs.TieInnerStep
 #print axioms PV.Proofs.C05.kt_stays_zero
 #print axioms PV.Proofs.C05.zero_temp_accept
 #print axioms PV.Proofs.C05.C05_monotone
@@ -19,3 +20,5 @@ import Proofs.TieLoopTail
 #print axioms PV.Proofs.Tie.declared_translated_looptail
 #print axioms PV.Proofs.Tie.loop_tail_tie
 #print axioms PV.Proofs.Tie.loop_tail_frame
+#print axioms PV.Proofs.Tie.declared_translated_innerstep
+#print axioms PV.Proofs.Tie.inner_step_tie
